@@ -428,8 +428,10 @@ theorem lanczos_step_no_panic_checked (k : Nat) (cols : List (List Nat)) (Y0 ay 
     (∃ st', lanczosStep true (qsOptimize k cols) ay st = .finished st' ∧ st'.y = st.y ∧
       ∀ w ∈ st'.ws, w.isEmpty = false → ∃ j : Nat, st.ws[j]? = some w) ∨
     (∃ st' mk w, lanczosStep true (qsOptimize k cols) ay st = .continue st' mk ∧
-      LInv k cols Y0 st' (hist ++ [w]) (Ss ++ [mk])) :=
-  lanczosStep_checked_ok hM hay hayOK hInv h3
+      LInv k cols Y0 st' (hist ++ [w]) (Ss ++ [mk])) := by
+  rcases lanczosStep_checked_ok hM hay hayOK hInv h3 with h | ⟨st', mk, w, h1, h2, _⟩
+  · exact Or.inl h
+  · exact Or.inr ⟨st', mk, w, h1, h2⟩
 
 open Ymq.Gf2Lanczos Ymq.Gf2 in
 /-- BASE CASE of the invariant: the state built by `lanczosInit` from the block `Y0` of `genblock`
